@@ -508,3 +508,12 @@ func LiveThreads() int { return -1 }
 // LogLeaks reports whether any line that reached a logging sink contains the
 // needle (engine only; natively the harness inspects its own log writer).
 func LogLeaks(needle string) bool { return false }
+
+// PreemptOnlyAt restricts scheduling points at lock acquisitions to the given
+// synchronisation objects (pointers to sync.Mutex / sync.RWMutex); explicit
+// Yield calls, channel operations and blocking always remain scheduling points.
+func PreemptOnlyAt(objs ...interface{}) {}
+
+// FirstTouchReduction: no scheduling point before the first use of a
+// synchronisation object by any thread (a heuristic reduction, listed as a bound).
+func FirstTouchReduction() {}
